@@ -28,7 +28,7 @@ COMPONENTS = {
     'stub': ['user objective with failure plan', 'PRNG seam (seeded + extreme legal draws)', 'joblib', 'time.time', 'uuid1'],
 }
 PROBES_EXPECTED = ['pbest_kept', 'pbest_replaced', 'hit_upper', 'hit_lower', 'inside', 'velocity_clamped_hi', 'velocity_clamped_lo',
-                   'leaders_at_capacity', 'omopso', 'smpso', 'psoga', 'direct_family', 'box_narrowed_between_uses', 'infinite_objective_plateau']
+                   'leaders_at_capacity', 'second_run_with_smaller_swarm', 'omopso', 'smpso', 'psoga', 'direct_family', 'box_narrowed_between_uses', 'infinite_objective_plateau']
 
 ALGOS = ('omopso', 'smpso', 'psoga')
 FACTOR = {'OMOPSO': -1, 'PSOGA': -1, 'SMPSO': 0.001}
@@ -145,6 +145,21 @@ def run_one(D, opts=None):
     info = runfam.setup(D, PID, algos=ALGOS, precision=None)
     ctx, w = info.ctx, info.w
     ctx.probe(info.kind)
+    if D.dec('cfg', 'second_run_smaller', 4) == 1:
+        # a first study with a larger swarm, then the population size is lowered and the SAME algorithm object runs again:
+        # the leader archive it carries over must be cut to the population size as it is now
+        fp, w.fail_p = w.fail_p, 0.0
+        info.alg.options['max_population_size'] = info.N + 2 + D.dec('cfg', 'first_run_extra', 8)
+        try:
+            with W.quiet():
+                info.alg.run()
+        except (kernel.Deadlock, kernel.StepCap):
+            raise
+        except Exception:
+            pass            # judged below by the ordinary rules on the second run
+        w.fail_p = fp
+        info.alg.options['max_population_size'] = info.N
+        ctx.probe('second_run_with_smaller_swarm')
     monitors.set_hooks(**hooks(ctx, w, info.N))
     runfam.execute(info)
     runfam.judge_abort(info, 'run of ' + info.kind, clause=None)
